@@ -102,9 +102,10 @@ Fixpoint run_loop (fuel : nat) (q : list bool) (w : list witem) (extra : nat) : 
 
 Definition sig_total (w : list witem) : nat := fold_right (fun i a => (length (snd i) + a)%nat) 0%nat w.
 Definition runner_fuel (pre : list bool) (w : list witem) : nat := (length pre + sig_total w + length w + 12)%nat.
+Definition runner_extra : nat := 64.   (* the harness's agent answers that many do_work calls after its script *)
 
 Definition runner_obs (c : agent_cfg) (pre : list bool) (w : list witem) : outcome Z * list gev :=
-  let '(o, ev) := run_loop (runner_fuel pre w) pre w 8 in
+  let '(o, ev) := run_loop (runner_fuel pre w) pre w runner_extra in
   match o with
   | Ok _ => (Ok 0, (GStart :: (if a_start_err c then [GErr] else [])) ++ ev ++ GClose :: (if a_close_err c then [GErr] else []))
   | _ => (Hang, (GStart :: (if a_start_err c then [GErr] else [])) ++ ev)
